@@ -966,7 +966,49 @@ def corr_values(ctx, rng, n):
     return out
 
 
+# ---- traceability: what is modelled by hand / regenerated / only exercised by the oracle
+MODELLED = [
+    # etag.py: getters and matchers (Model: etag_getter, if_match, if_none_match, contains, matcher_parse)
+    "webob.etag:etag_property",                    # fget: environ.get(key); `not value` -> default; else ETagMatcher.parse
+    "webob.request:BaseRequest.if_match",          # = etag_property("HTTP_IF_MATCH", AnyETag, strong=True).fget
+    "webob.request:BaseRequest.if_none_match",     # = etag_property("HTTP_IF_NONE_MATCH", NoETag, strong=False).fget
+    "webob.etag:_AnyETag.__contains__",
+    "webob.etag:_NoETag.__contains__",
+    "webob.etag:ETagMatcher.__contains__",
+    "webob.etag:ETagMatcher.parse",
+    # etag.py: If-Range (Model: if_range_parse, if_range_contains)
+    "webob.etag:IfRange.parse",
+    "webob.etag:IfRange.__contains__",
+    "webob.etag:IfRangeDate.__contains__",
+    "webob.request:BaseRequest.if_range",          # = converter(environ_getter("HTTP_IF_RANGE", None), IfRange.parse, ...).fget
+    "webob.descriptors:environ_getter",            # fget with default None: the `value : option str` of if_range_parse
+    # descriptors.py / response.py: the response ETag (Model: parse/serialize_etag_response, set_etag, get_etag, get_etag_strong)
+    "webob.descriptors:parse_etag_response",
+    "webob.descriptors:serialize_etag_response",
+    "webob.descriptors:converter",                 # fget = parse(hget(r)); fset = hset(r, serialize(val)) -- Response.etag
+    "webob.descriptors:header_getter",             # fget first matching header; fset: delete, refuse CR/LF, append -- _etag_raw
+    "webob.response:Response.etag",
+    "webob.response:Response.etag_strong",
+]
+REGENERATED = [
+    "webob.etag:_rx_etag_list",                    # the pattern ETagMatcher.parse runs findall with -> lst_pre / lst_esc / lst_excl
+    "webob.descriptors:_rx_etag",                  # the pattern parse/serialize_etag_response run match with -> rsp_*
+]
+ORACLE_ONLY = [
+    "webob.datetime_utils:parse_date",             # Section variable in the model; results recorded and replayed
+    "webob.datetime_utils:serialize_date",         # Response.last_modified = datetime (if-range-date oracle, how="attr")
+    "webob.response:Response.last_modified",
+    "webob.descriptors:serialize_if_range",        # request.if_range = value (history-request, via="attr")
+    "webob.request:BaseRequest.blank",             # headers={...} -> HTTP_* environ keys
+    "webob.response:Response.__init__",            # Response(etag=...)
+    "webob.etag:ETagMatcher.__str__",
+]
+
+
 def run(ctx):
+    ctx.modelled(MODELLED)
+    ctx.extra["regenerated_from_source"] = REGENERATED
+    ctx.extra["oracle_only"] = ORACLE_ONLY
     stop = gen(ctx)
     if stop:
         ctx.broken.append(stop)
